@@ -91,7 +91,9 @@ func (p *videoParams) facts(kind string) videoFacts {
 		}
 	case "h265":
 		for i, s := range h265SPSs {
-			if string(s) == string(p.sps) {
+			q := append([]byte(nil), p.sps...)
+			q[3] &^= 0x60
+			if string(s) == string(q) {
 				return h265Facts[i]
 			}
 		}
@@ -120,8 +122,8 @@ func codecStringOK(ts *trackSpec, p *videoParams, got string) (bool, string) {
 	case "vp9":
 		// vp09.PP.LL.DD - the level is not derivable from the parameters
 		f := strings.Split(lg, ".")
-		want := fmt.Sprintf("vp09.%02d.<level>.08", p.vp9Profile)
-		if len(f) < 4 || f[0] != "vp09" || f[1] != fmt.Sprintf("%02d", p.vp9Profile) || len(f[2]) != 2 || f[3] != "08" {
+		want := fmt.Sprintf("vp09.%02d.<level>.%02d", p.vp9Profile, p.vp9Depth)
+		if len(f) < 4 || f[0] != "vp09" || f[1] != fmt.Sprintf("%02d", p.vp9Profile) || len(f[2]) != 2 || f[3] != fmt.Sprintf("%02d", p.vp9Depth) {
 			return false, want
 		}
 		return true, want
